@@ -64,6 +64,8 @@ def scenarios(ctx):
             w["gt_desc"] = True                            # unphased heterozygous genotypes written 1/0
         if rng.random() < 0.15:
             w["first_at_zero"] = True                      # the first site on the first base of its contig
+        if rng.random() < 0.2:
+            w["multi_before"] = [[ci_, si_] for ci_, ch_ in enumerate(w["chroms"]) for si_ in range(len(ch_["sites"])) if rng.random() < 0.4]
         scs.append({"world": w})
     # ---- nested phase sets with a forced recombination behind the inner set (quartets) ----
     for i in range(60 if ctx.quick else 1500):
